@@ -394,7 +394,7 @@ def post_jte(G, pre, tails, exits, ret):
             if keep_old != keep_new:
                 errs.append(("unrequested-arc-changed", "tail %s: %s -> %s" % (name, old_f, new_f)))
             for t in rec["backedges"]:
-                if t not in b._jump_targets:
+                if t in rec["targets"] and t not in b._jump_targets:
                     errs.append(("backedge-target-dropped", "tail %s" % name))
             for e in old_f:
                 if e in exits:
